@@ -80,6 +80,148 @@ struct Run {
     oob: bool,
 }
 
+fn memfd_append() -> RawFd {
+    let fd = unsafe { libc::memfd_create(b"fuse-reply\0".as_ptr() as *const libc::c_char, 0) };
+    assert!(fd >= 0);
+    unsafe { libc::fcntl(fd, libc::F_SETFL, libc::O_APPEND) };
+    fd
+}
+
+fn read_all(fd: RawFd) -> Vec<u8> {
+    let mut out = Vec::new();
+    let mut buf = vec![0u8; 1 << 16];
+    let mut off = 0i64;
+    loop {
+        let n = unsafe { libc::pread(fd, buf.as_mut_ptr() as *mut libc::c_void, buf.len(), off) };
+        if n <= 0 {
+            break;
+        }
+        out.extend_from_slice(&buf[..n as usize]);
+        off += n as i64;
+    }
+    out
+}
+
+/// the asynchronous request path on the same case (no pre-INIT support needed: `vers` is shared
+/// code with the sync path)
+fn run_case_async(cx: &Ctx, kv: &Kv) -> Run {
+    use fbrh::scriptfs_async::block_on;
+    let req = unhex(ks(kv, "req"));
+    let cap = kn(kv, "cap") as usize;
+    let fusedev = ks(kv, "t") == "fusedev";
+    let server = Server::new(ScriptFs::new(kv.clone()));
+    let mut run = Run { calls: String::new(), sys: vec![], area: String::new(), area_raw: vec![], ret: String::new(), minor_after: String::new(), panicked: false, oob: false };
+    if let Some(pm) = kv.get("pre_minor") {
+        let minor: u32 = pm.parse().unwrap_or(33);
+        let mut b = srvgen::B::new();
+        b.u32(7);
+        b.u32(minor as u64);
+        b.u32(0);
+        b.u32(0);
+        let mut msg = srvgen::header(56, 26, 1, 0, 0, 0, 0, 0);
+        msg.extend_from_slice(&b.v);
+        let mut scratch = vec![0u8; 256];
+        let r: Reader<'_, ()> = Reader::from_fuse_buffer(FuseBuf::new(&mut msg)).unwrap();
+        let w = FuseDevWriter::<()>::new(cx.sock.0, &mut scratch).unwrap();
+        fbrh::scriptfs::QUIET.with(|p| p.set(true));
+        let _ = server.handle_message(r, Writer::FuseDev(w), None, None);
+        fbrh::scriptfs::QUIET.with(|p| p.set(false));
+        let _ = drain(cx.sock.1);
+    }
+    let vu = kn(kv, "vu") == 1;
+    let mut nocache = NoCache;
+    if fusedev {
+        let fd = memfd_append();
+        let mut reqbuf = req.clone();
+        const G: usize = 64;
+        let mut scratch: Vec<u8> = (0..cap + 2 * G).map(|i| if i < G || i >= G + cap { 0xC3 } else { vq::fill(i - G) }).collect();
+        let res = catch_unwind(AssertUnwindSafe(|| {
+            let r: Reader<'_, ()> = Reader::from_fuse_buffer(FuseBuf::new(&mut reqbuf)).unwrap();
+            let w = FuseDevWriter::<()>::new(fd, &mut scratch[G..G + cap]).unwrap();
+            let vr: Option<&mut dyn FsCacheReqHandler> = if vu { Some(&mut nocache) } else { None };
+            block_on(unsafe { server.async_handle_message(r, Writer::FuseDev(w), vr, None) })
+        }));
+        match res {
+            Ok(Ok(n)) => run.ret = format!("ok:{}", n),
+            Ok(Err(e)) => run.ret = format!("err:{}", err_name(&e)),
+            Err(_) => {
+                run.ret = "panic".into();
+                run.panicked = true;
+            }
+        }
+        run.oob = scratch[..G].iter().any(|&b| b != 0xC3) || scratch[G + cap..].iter().any(|&b| b != 0xC3) || reqbuf != req;
+        let all = read_all(fd);
+        unsafe { libc::close(fd) };
+        if !all.is_empty() {
+            run.sys = vec![all];
+        }
+    } else {
+        let rlens = nat_list(ks(kv, "seg"));
+        let wlens = nat_list(ks(kv, "wseg"));
+        let segs = vq::place(kn(kv, "lay"), &rlens, &wlens);
+        let mut pos = 0usize;
+        for s in segs.iter().filter(|s| !s.writable) {
+            let end = std::cmp::min(req.len(), pos + s.len as usize);
+            vq::write_bytes(&cx.mem, s.addr, &req[std::cmp::min(pos, req.len())..end]);
+            pos += s.len as usize;
+        }
+        vq::prefill(&cx.mem, &segs, 0);
+        let res = catch_unwind(AssertUnwindSafe(|| {
+            let chain = vq::build_chain(&cx.mem, &segs);
+            let r = Reader::from_descriptor_chain(&cx.mem, chain.clone()).unwrap();
+            let w = VirtioFsWriter::new(&cx.mem, chain).unwrap();
+            let vr: Option<&mut dyn FsCacheReqHandler> = if vu { Some(&mut nocache) } else { None };
+            block_on(unsafe { server.async_handle_message(r, Writer::VirtioFs(w), vr, None) })
+        }));
+        match res {
+            Ok(Ok(n)) => run.ret = format!("ok:{}", n),
+            Ok(Err(e)) => run.ret = format!("err:{}", err_name(&e)),
+            Err(_) => {
+                run.ret = "panic".into();
+                run.panicked = true;
+            }
+        }
+        run.area_raw = vq::read_area(&cx.mem, &segs);
+        run.area = vq::area_diff(&run.area_raw);
+    }
+    run
+}
+
+/// C20: both request paths on the same case; the compared line is the async one
+fn exec_async(cx: &Ctx, line: &str, out: &mut Out) -> String {
+    let kv = parse_kv(line);
+    let req = unhex(ks(&kv, "req"));
+    let op = if req.len() >= 8 { le32(&req, 4) } else { u32::MAX };
+    fbrh::scriptfs::TAP.with(|t| t.borrow_mut().clear());
+    let s = run_case(cx, &kv);
+    let s_calls = fbrh::scriptfs::TAP.with(|t| t.borrow().join(";"));
+    fbrh::scriptfs::TAP.with(|t| t.borrow_mut().clear());
+    let a = run_case_async(cx, &kv);
+    let a_calls = fbrh::scriptfs::TAP.with(|t| t.borrow().join(";"));
+    let s_bytes: Vec<u8> = s.sys.concat();
+    let a_bytes: Vec<u8> = a.sys.concat();
+    let impl_line = format!("calls={} sys={} area={} ret={}", a_calls, hex(&a_bytes), a.area, a.ret);
+    let mut diff = Vec::new();
+    if s_calls != a_calls { diff.push("calls"); }
+    if s_bytes != a_bytes { diff.push("reply-bytes"); }
+    if s.area != a.area { diff.push("area"); }
+    if s.ret != a.ret { diff.push("return"); }
+    if a.panicked { diff.push("panic"); }
+    if !diff.is_empty() {
+        // specific signature: opcode + what differs (+ the documented WRITE size limit)
+        let size_over = op == 16 && req.len() >= 40 + 20 && le32(&req, 40 + 16) > (1 << 20);
+        let key = if size_over { "C20:write:size-over-1MiB".to_string() } else { format!("C20:diverge:op{}:{}", op, diff.join("+")) };
+        let v = serde_json::json!({"prop": "C20", "key": key, "case": line,
+            "what": format!("sync: calls=[{}] reply={} area={} ret={} | async: calls=[{}] reply={} area={} ret={}",
+                s_calls, hex(&s_bytes), s.area, s.ret, a_calls, hex(&a_bytes), a.area, a.ret)});
+        use std::io::Write;
+        writeln!(out.oracle, "{}", v).unwrap();
+        out.n_oracle += 1;
+    }
+    out.class(&format!("{}|{}|{}|{}", op, ks(&kv, "t"), ks(&kv, "ans"), a.ret.split(':').take(2).collect::<Vec<_>>().join(":")));
+    impl_line
+}
+
 fn nat_list(s: &str) -> Vec<u32> {
     if s.is_empty() {
         vec![]
@@ -291,8 +433,16 @@ fn exec(cx: &Ctx, line: &str, out: &mut Out) -> String {
             }
         }
     }
+    // C12: INIT replies are judged whenever a reply exists (also for major mismatches)
+    if op == 26 && kn(&kv, "init_wf") == 1 {
+        if let Some(rp) = &reply {
+            if let Some(what) = fbrh::srvoracle::check_reply(&kv, op, rp) {
+                prop("C12", format!("C12:{}", what.0), what.1, out);
+            }
+        }
+    }
     // C03: independent decode of the reply against the scripted answer
-    if wf && kn(&kv, "cap_ok") == 1 && kn(&kv, "fs_reach") == 1 {
+    if op != 26 && wf && kn(&kv, "cap_ok") == 1 && kn(&kv, "fs_reach") == 1 {
         if let Some(rp) = &reply {
             if let Some(what) = fbrh::srvoracle::check_reply(&kv, op, rp) {
                 prop("C03", format!("C03:encode:op{}:{}", op, what.0), what.1, out);
@@ -439,6 +589,12 @@ fn mk_case(g: &mut GenCtx, op: u32, mutate: bool, prop: &str) -> String {
         let k = *r.pick(b.ans);
         srvgen::gen_answer(k, b.tag, op, r)
     };
+    // the async trait cannot carry a passthrough id, so C20 compares on answers without one
+    let ans = if prop == "C20" {
+        let mut t: Vec<String> = ans.split(' ').map(|x| if x.starts_with("pt=") { "pt=none".to_string() } else { x.to_string() }).collect();
+        t.retain(|x| !x.is_empty());
+        t.join(" ")
+    } else { ans };
     let need = reply_need(&b, &ans);
     // reply capacity
     let cap_choice = r.below(14);
@@ -491,11 +647,14 @@ fn mk_case(g: &mut GenCtx, op: u32, mutate: bool, prop: &str) -> String {
         None => String::new(),
     };
     let vu = if b.vu { if r.chance(5, 6) { 1 } else { 0 } } else { r.below(2) };
-    let wf_flag = wf && remap != "err" && (!b.vu || vu == 1) && op != 47;
+    let init_major_ok = op != 26 || (b.body.len() >= 4 && le32(&b.body, 0) == 7);
+    let init_wf = op == 26 && wf && remap != "err";
+    let wf_flag = wf && remap != "err" && (!b.vu || vu == 1) && op != 47 && init_major_ok;
     let mut line = format!("t={} cap={} op={} mut={} wf={} needs_reply={} cap_ok={} fs_reach={} vu={} remap={} ",
         if fusedev { "fusedev" } else { "virtio" }, cap, opn, mut_tag, if wf_flag { 1 } else { 0 },
         if b.needs_reply { 1 } else { 0 }, if cap_ok && cap >= 16 { 1 } else { 0 }, if fs_reach { 1 } else { 0 }, vu, remap);
     if wf_flag { line.push_str(&format!("exp={} ", exp)); }
+    if init_wf { line.push_str("init_wf=1 "); }
     if op == 1 && r.chance(1, 3) {
         line.push_str(&format!("pre_minor={} ", *r.pick(&[0u32, 3, 4, 5, 33])));
     }
@@ -515,10 +674,12 @@ fn main() {
     let mut out = Out::new(a.get("out").map(|s| s.as_str()).unwrap_or("/verif/.work/srv"));
     std::panic::set_hook(Box::new(|_| {}));
     let cx = Ctx { mem: vq::new_mem(), sock: socketpair() };
+    let prop_early = a.get("prop").cloned().unwrap_or_else(|| "C01".into());
+    let is_async = prop_early == "C20" || a.get("mode").map(|m| m == "async").unwrap_or(false);
     if let Some(f) = a.get("cases") {
         for line in std::fs::read_to_string(f).unwrap().lines() {
             if line.trim().is_empty() { continue; }
-            let o = exec(&cx, line, &mut out);
+            let o = if is_async { exec_async(&cx, line, &mut out) } else { exec(&cx, line, &mut out) };
             out.case(line, &o);
         }
         out.finish();
@@ -527,7 +688,7 @@ fn main() {
     let seed: u64 = a.get("seed").and_then(|s| s.parse().ok()).unwrap_or(1);
     let n: u64 = a.get("n").and_then(|s| s.parse().ok()).unwrap_or(3000);
     let prop = a.get("prop").cloned().unwrap_or_else(|| "C01".into());
-    let mut_pct: u64 = a.get("mutpct").and_then(|s| s.parse().ok()).unwrap_or(match prop.as_str() { "C01" => 50, "C12" => 5, _ => 10 });
+    let mut_pct: u64 = a.get("mutpct").and_then(|s| s.parse().ok()).unwrap_or(match prop.as_str() { "C01" => 50, "C20" => 35, "C12" => 5, _ => 10 });
     let mut r = Prng::new(seed ^ 0x5127);
     for i in 0..n {
         let op = if prop == "C12" { 26 } else if i < 2 * srvgen::ALL_OPS.len() as u64 { srvgen::ALL_OPS[(i as usize) % srvgen::ALL_OPS.len()] } else { *r.pick(srvgen::ALL_OPS) };
@@ -541,7 +702,7 @@ fn main() {
         out.stat(&format!("mut:{}", ks(&kvl, "mut")));
         out.stat(&format!("t:{}", ks(&kvl, "t")));
         out.stat(&format!("ans:{}", ks(&kvl, "ans")));
-        let o = exec(&cx, &line, &mut out);
+        let o = if is_async { exec_async(&cx, &line, &mut out) } else { exec(&cx, &line, &mut out) };
         let rk = o.rsplit("ret=").next().unwrap_or("").to_string();
         out.stat(&format!("ret:{}", rk.split(':').take(if rk.starts_with("err") { 2 } else { 1 }).collect::<Vec<_>>().join(":")));
         out.case(&line, &o);
